@@ -969,6 +969,18 @@ fn mark_hidden(rng: &mut Rng, v: &[H], hide_prob: usize, mode: usize, hidden_ids
         match h {
             H::El(name, attrs, kids) => {
                 let can = !["html", "body", "br", "img"].contains(&name.as_str());
+                if can && mode == 1 && rng.chance(1, 4 * hide_prob) {
+                    // a display:none that LOSES the cascade to another display value on the same
+                    // element: the element is shown (kept on both sides; the deleted side has no style at all)
+                    let mut at = attrs.clone();
+                    at.retain(|(k, _)| k != "class" && k != "style");
+                    at.push(("style".into(), rng.pick(&["display:none;display:block", "display:none;display:inline", "display:block !important;display:none", "display: none; frob:1; display: table-cell", "display:inline!important;display:none;"]).to_string()));
+                    let (ka, kb) = mark_hidden(rng, kids, hide_prob, mode, hidden_ids, n);
+                    a.push(H::El(name.clone(), at.clone(), ka));
+                    at.pop();
+                    b.push(H::El(name.clone(), at, kb));
+                    continue;
+                }
                 if can && rng.chance(1, hide_prob) {
                     *n += 1;
                     let mut at = attrs.clone();
@@ -1073,7 +1085,10 @@ fn gen_c18(tier: &str, rng: &mut Rng) -> Vec<Case> {
             _ => {
                 if !ids.is_empty() {
                     let sel: Vec<String> = ids.iter().map(|i| format!("#{}", i)).collect();
-                    cfg.user_css.push(format!("{} {{ display: none !important; }}", sel.join(", ")));
+                    // (an earlier, or less important, display:block on the same ids loses)
+                    let lose = *rng.pick(&["", "", "{S} { display: block !important; } ", "{S} { display: inline; } "]);
+                    let after = *rng.pick(&["", "", " {S} { display: block; }"]);
+                    cfg.user_css.push(format!("{}{} {{ display: none !important; }}{}", lose.replace("{S}", &sel.join(", ")), sel.join(", "), after.replace("{S}", &sel.join(", "))));
                 }
             }
         }
